@@ -257,6 +257,7 @@ class HTMLUnicodeInputStream(object):
         self.chunkOffset = 0
 
         data = self.dataStream.read(chunkSize)
+        atEOF = not data
 
         # Deal with CR LF and surrogates broken across chunks
         if self._bufferedCharacter:
@@ -266,11 +267,14 @@ class HTMLUnicodeInputStream(object):
             # We have no more data, bye-bye stream
             return False
 
-        if len(data) > 1:
+        if not atEOF:
             lastv = ord(data[-1])
             if lastv == 0x0D or 0xD800 <= lastv <= 0xDBFF:
                 self._bufferedCharacter = data[-1]
                 data = data[:-1]
+                if not data:
+                    # a lone CR / lead surrogate: wait for what follows it
+                    return self.readChunk(chunkSize)
 
         if self.reportCharacterErrors:
             self.reportCharacterErrors(data)
